@@ -127,7 +127,9 @@ def classify(c, io, mf):
     if method == "covertree" and mf.get("cq") != "ok":
         return ("broken", "cover-query-certificate", "cover-tree query returned a candidate set different from {j | d(i,j) <= k-th} (%s)"
                 % mf.get("cq"))
-    if method == "covertree" and mf.get("wf") not in (None, "1"):
+    if method == "covertree" and str(mf.get("wf", "")).startswith("unparsed"):
+        mf["wf-unparsed"] = "1"      # protocol limitation of the dump (non-integer distance), never a verdict; counted in the evidence
+    elif method == "covertree" and mf.get("wf") not in (None, "1"):
         return ("broken", "cover-tree-wf-certificate", "the cover tree built by batch_create is not well formed (wf=%s): first child "
                 "carrying the parent's point / true parent distances / max_dist bounding all descendants / every sample once "
                 "— the hypothesis of cover_query_exact" % mf.get("wf"))
@@ -181,7 +183,9 @@ def judge(ctx, binary, cases, label, brief=False):
             ctx.stat("cases-with-coincident-samples(>=k+1)")
         if mf.get("ties") not in (None, "0"):
             ctx.stat("cover-cases-with-boundary-ties")
-        if "wf" in mf:
+        if str(mf.get("wf", "")).startswith("unparsed"):
+            ctx.stat("cover-tree-dump-unparsed(certificate skipped)")
+        elif "wf" in mf:
             ctx.stat("cover-trees-certified(wfTree)+model-query-run")
             ctx.stat("fidelity:cover-query-order-" + mf.get("mqorder", "?"))
         v = classify(c, io, mf)
